@@ -167,7 +167,8 @@ def _by_index_mode(ref):
     keys; cleanly undefined (-> eager cache falls back to a list) iff the input never had any."""
     if ref.keyed:
         return 'yes'
-    return 'undef' if ref.items_mode == 'undef' else 'no'
+    # keys() of a dataset that mixes keyed parts with duplicate keys and key-less parts fails irregularly
+    return 'undef' if (ref.items_mode == 'undef' and all(k is None for k, _ in ref.items)) else 'no'
 
 
 def _combine_modes(parts):
